@@ -487,6 +487,18 @@ impl CommandBuilder<'_> {
     }
 }
 
+/// Input bytes become an argument unchanged (they need not be valid UTF-8).
+#[cfg(unix)]
+fn os_string_from_bytes(bytes: Vec<u8>) -> OsString {
+    use std::os::unix::ffi::OsStringExt;
+    OsString::from_vec(bytes)
+}
+
+#[cfg(not(unix))]
+fn os_string_from_bytes(bytes: Vec<u8>) -> OsString {
+    String::from_utf8_lossy(&bytes).into_owned().into()
+}
+
 trait ArgumentReader {
     fn next(&mut self) -> io::Result<Option<Argument>>;
 }
@@ -582,7 +594,7 @@ where
         }
 
         Ok(Some(Argument {
-            arg: String::from_utf8_lossy(&result[..]).into_owned().into(),
+            arg: os_string_from_bytes(result),
             kind: if terminated_by_newline {
                 ArgumentKind::HardTerminated
             } else {
@@ -631,7 +643,7 @@ where
                     &buf[..]
                 };
                 break Some(Argument {
-                    arg: String::from_utf8_lossy(bytes).into_owned().into(),
+                    arg: os_string_from_bytes(bytes.to_vec()),
                     kind: ArgumentKind::HardTerminated,
                 });
             }
